@@ -218,6 +218,21 @@ func runC10(c *Ctx, idx int, o *Obs) {
 		}
 	}
 
+	// ---- tree objects with a past (indexed under another name, then renamed through the API) -----
+	{
+		rtU := usedObject(r, refText)
+		if err := support.FBP(rtU, treesChanUsed(r, boots), 1, nil); o.Check(err == nil, "fbp_error", "used tree objects: "+fmt.Sprint(err), inp) {
+			judge("FBP (reference and some bootstrap trees are previously indexed and renamed objects)", rtU, wantF, nil)
+		}
+		rtU = usedObject(r, refText)
+		if err := rtU.ReinitIndexes(); err == nil {
+			if _, err := support.TBE(rtU, treesChanUsed(r, boots), 1, false, false, false, 0.3, nil, nil); o.Check(err == nil, "tbe_error", "used tree objects: "+fmt.Sprint(err), inp) {
+				judge("TBE (some bootstrap trees are previously indexed and renamed objects)", rtU, wantT, nil)
+			}
+		}
+		o.Ev("used_object_runs", 2)
+	}
+
 	// ---- invariance: order, re-rooting, rotation of every tree -------------------------------
 	{
 		represent := func(s string) string {
